@@ -96,6 +96,7 @@ def parse(infile, implfile, modelfile):
 
 def compare(ctx, rows, name):
     mism = []
+    flushed = []
     either = []
     missed = []
     for i, r in enumerate(rows):
@@ -123,12 +124,17 @@ def compare(ctx, rows, name):
             why.append("accepted flags")
         if r["comp"] != r["m_comp"]:
             why.append("completed flags")
-        if r["code"] != r["m_code"]:
+        # tracing deployments on the successful way out: the model has no trace exporter; what the process does after "shutdown completed"
+        # there (the final span flush) is the known finding drained-but-held-by-trace-flush and is judged by the monitor, not compared
+        flush_path = r.get("tracing", 0) != 0 and r["m_code"] == 0
+        if flush_path:
+            flushed.append(i)
+        if r["code"] != r["m_code"] and not flush_path:
             why.append("exit status")
         # the exit instant: within TOL of the model's - or, for a SUCCESSFUL exit, up to one further Shutdown poll interval later
         # (a poll that runs before the server has marked the last connection idle is lost; the next one comes 500-550 ms later)
         late_ok = TOL + (int(0.55 * SEC) if r["code"] == 0 and r["m_code"] == 0 else 0)
-        if not (-TOL <= r["exit"] - r["m_exit"] <= late_ok):
+        if not flush_path and not (-TOL <= r["exit"] - r["m_exit"] <= late_ok):
             why.append("exit time differs by %.2f s" % ((r["exit"] - r["m_exit"]) / SEC))
         if why:
             mism.append({"index": i, "input": r["input"], "impl": r["impl"], "model": r["model"], "why": why})
@@ -136,6 +142,7 @@ def compare(ctx, rows, name):
            "note": "flags and exit status exact; exit time within %.1f s (a successful exit may be one further poll interval late); either_scenarios = scenarios not robust against timing noise "
                    "(sd_robust = false), for which either outcome is accepted" % (TOL / SEC)}
     ctx.extra["either_scenarios"] = len(either)
+    ctx.extra["tracing_scenarios_on_the_successful_way_out_(exit_not_compared_with_the_model)"] = len(flushed)
     ctx.extra["scenarios_set_aside_because_the_driver_missed_its_schedule"] = len(missed)
     if missed:
         rec["driver_missed_schedule"] = missed[:5]
@@ -192,6 +199,8 @@ def monitor(ctx, rows, notes):
             # (by the PLAN: a process that outlives the deadline may well answer, late, a request that could not complete in time)
             drained = all(a + d <= G for a, d, acc in zip(r["arr"], r["svc"], r["acc"]) if acc)
             key = "negative-wait-before-exceeds-graceful" if W < 0 else "drained-but-exit-after-graceful-period" if drained else "exit-after-graceful-period"
+            if key == "drained-but-exit-after-graceful-period" and r["tracing"] != 0:
+                key = "drained-but-held-by-trace-flush"   # the known finding: names the deployment (tracing on, collector not answering) and the way out (drained)
             still = " (it was still running %.0f s after the end of the graceful period and was killed by the harness)" % ((r["exit"] - G) / SEC) if r["code"] == -1000 else ""
             ctx.violation(key, "the process exited %.2f s after the signal; graceful period %.2f s (wait-before %.2f s); tracing %s; %s%s"
                           % (r["exit"] / SEC, G / SEC, W / SEC, TRACING.get(r["tracing"], "?"),
@@ -235,7 +244,9 @@ def monitor(ctx, rows, notes):
             if r["code"] != 0:
                 # (status 1 = the log.Fatalf of the deadline watcher; a process that was killed by a signal, or failed in another
                 # way, is a different failure and gets its own key)
-                ctx.violation("drained-but-exit-status-failure" if r["code"] == 1 else "drained-but-still-running" if r["code"] == -1000 else
+                ctx.violation("drained-but-exit-status-failure" if r["code"] == 1 else
+                              "drained-but-held-by-trace-flush" if r["code"] == -1000 and r["tracing"] != 0 else
+                              "drained-but-still-running" if r["code"] == -1000 else
                               "drained-but-killed-by-signal" if r["code"] < 0 else "drained-but-exit-status-other",
                               "every accepted request completed (the last at %.2f s, graceful period %.2f s) but the process did not exit successfully: %s at %.2f s%s"
                               % (last / SEC, G / SEC, status_text(r["code"]), r["exit"] / SEC, more), case)
